@@ -90,9 +90,22 @@ def judge_gcc(T, H, NP, hot, cold, pts, valid, emb, scale):
     return out
 
 
+def zero_frame(case):
+    """A frame in which the first breakpoint the sweep has to insert (a pocket-closing temperature that is not a table row) is EXACTLY
+    0.0 and every table row is an integer: x = p/q in lattice units -> T = -p + q * t.  None if the sweep inserts nothing.  (A value of
+    exactly 0.0 is where truthiness tests go wrong; seed C07e: the closing temperature is requested as a bare scalar.)"""
+    n = len(case["shape"])
+    rows = {F((n - j) * 100) for j in range(n)}
+    ins = [F(v[0], v[1]) for v in case["implT"] if F(v[0], v[1]) not in rows]
+    if not ins:
+        return None
+    x = ins[(len(case["shape"]) + sum(case["shape"])) % len(ins)]
+    return Emb("EZ-closing-at-0", float(-x.numerator), float(x.denominator), 1.0)
+
+
 def replay(args):
     case, ename = args
-    emb = EMBS[ename]
+    emb = zero_frame(case) if ename == "EZ" else EMBS[ename]
     np, PT = _OP["np"], _OP["PT"]
     shape = case["shape"]
     n = len(shape)
@@ -154,6 +167,7 @@ def check(prop, tier, run: Run, replay_case=None):
         cases = sorted(res.cases, key=lambda c: c["shape"])
         embs = [E1.name, E2.name, E0.name]
         jobs = [(c, e) for c in cases for e in (embs[:2] if tier == "quick" else embs)]
+        jobs += [(c, "EZ") for c in cases if zero_frame(c) is not None]
         with Pool(16, initializer=_init) as pool:
             for (case, ename), (out, flags) in zip(jobs, pool.imap(replay, jobs, chunksize=128)):
                 run.cov["evaluations"] += 1
